@@ -5,7 +5,7 @@
 P=$(readlink -f "$1"); shift
 cd /verif
 WT=/tmp/wt_try_$$
-git -C /repo worktree add --detach $WT HEAD >/dev/null 2>&1 || { echo "cannot create worktree"; exit 2; }
+git -C /repo worktree add --detach $WT ${SEED_BASE:-HEAD} >/dev/null 2>&1 || { echo "cannot create worktree"; exit 2; }
 trap "git -C /repo worktree remove --force $WT >/dev/null 2>&1; rm -rf $WT /tmp/try_evidence_$$" EXIT
 git -C $WT apply "$P" || { echo "patch does not apply"; exit 2; }
 export REPO_DIR=$WT GOSX_EVIDENCE_DIR=/tmp/try_evidence_$$
